@@ -1012,6 +1012,16 @@ class Interp:
             return _re.escape(args[0])
         if dotted.startswith("re.") and name in ("I", "IGNORECASE", "M", "S", "X", "U"):
             return int(getattr(_re, name))
+        if dotted in ("re.search", "re.match", "re.fullmatch", "re.finditer", "re.findall", "re.split") and len(args) >= 2:
+            pat = args[0]
+            if isinstance(pat, RegexVal | str) and isinstance(args[1], str):
+                # folding a constant pattern over a constant string
+                rx = _re.compile(pat.pattern, pat.flags) if isinstance(pat, RegexVal) else _re.compile(pat)
+                r = getattr(rx, name)(args[1])
+                return list(r) if name == "finditer" else r
+            hook = self.hooks.get("re:predicate")
+            if hook is not None:
+                return hook(self, name, pat, args[1], node)
         if dotted in ("types.MappingProxyType",):
             return args[0]
         if dotted in ("itertools.chain",):
